@@ -101,6 +101,7 @@ OPEN = [
     "composition laws of Orientation.convert_to (Laws) and the block shape of the conversion matrices (PosShape) are hypotheses here (C02 proves them); the oracle evaluates them on the real matrices",
     "local_orthonormal / local_equivariant are proved for the list model of to_qsw / to_tnw (templates/Local.tpl, R instantiation); the sequence theorems take orthogonality of toLocal at the original state as the matrix hypothesis LocOrth - the bridge between rows-as-lists and Matrix (Fin 3 + Fin 3) is not formalised",
     "`sv.cov = c` (StateVector.cov setter) re-seats the private copy of `c` without updating `_orb_frame`; the heap model and its correspondence reproduce this (op `att`, also with a covariance built for another state or frame), but no theorem says what such a covariance means: heap_path_independent starts from objects whose `_orb_frame` is the frame of their private copy (heap_init)",
+    "the model identifies a frame with its name; Frame objects compare by identity and unpickling rebuilds them, so an unpickled covariance attached on its own to a state does not follow it and an array derived from it raises on `e.frame = <its own frame>` (known finding C14-unpickled-frame-identity, open; proposed_fixes/C14-frame-identity-after-pickle.diff); the heap correspondence keeps these two situations out of its sequences, the oracle family `unpickled` reports them",
     "arrays made by numpy out of a covariance have no `_orb_frame`: the setter raises AttributeError unless both tags are QSW/TNW (known finding C14-derived-array-no-orb-frame, open; proposed_fixes/C14-cov-derived-array-orb-frame.diff); heap_path_independent therefore speaks about objects made by Cov(...), Cov.copy, unpickling; for numpy-made arrays only independence from their source is proved (derived_independent)",
 ]
 RULE = ("heap correspondence: 2-4 states (mostly sharing date and frame, sometimes equal), a covariance per state built from every kind of `values` (lists of ints/floats, int32/int64/"
